@@ -76,6 +76,9 @@ func ruleLockset(c *Check, rGuard, rBlock, rOrder, rChan string) {
 		if strings.Contains(name, "_test") {
 			continue
 		}
+		if unknownHelper(fn, 0) && hasRepoCaller(c.P, fn) {
+			continue // a new helper is walked as part of each of its callers
+		}
 		nFuncs++
 		c.UseFunc(name)
 		// held locks and lock classes
@@ -102,7 +105,7 @@ func ruleLockset(c *Check, rGuard, rBlock, rOrder, rChan string) {
 				return false
 			},
 			KeepAtom: func(a Atom) bool {
-				return strings.Contains(a.String(), "sendLast") || strings.Contains(a.String(), "released")
+				return a.Kind == "bool" && strings.HasPrefix(a.A, "param:") || strings.Contains(a.String(), "released")
 			},
 		})
 		if w.Err != nil {
@@ -178,7 +181,14 @@ func ruleLockset(c *Check, rGuard, rBlock, rOrder, rChan string) {
 						continue
 					}
 					// discharge: token returned to a channel whose capacity equals the number of tokens (at most once per token)
-					if e.Kind == "send" && e.Fn == fnRelease {
+					inRelease := e.Fn == fnRelease
+					if !inRelease && !knownFuncs[e.Fn] {
+						// a helper split off Release, walked as part of it
+						if hf := c.P.Func(e.Fn); hf != nil {
+							inRelease = onlyCalledFrom(c.P, hf, fnRelease)
+						}
+					}
+					if e.Kind == "send" && inRelease {
 						if rel, f := condTruth(p, ".released", j); f && !rel {
 							continue
 						}
@@ -676,4 +686,39 @@ func ruleCancellableLoops(c *Check, rule string) {
 		c.Ok(rule, "cancellable-loops", fmt.Sprintf("%d unbounded loops in %d goroutine bodies: every cycle passes a cancellation point", nLoops, len(goroutineBodies)), "")
 	}
 	c.Floor(rule, nLoops, 7, "unbounded loops in goroutine bodies")
+}
+
+// hasRepoCaller: is fn called (statically) from another repository function?
+func hasRepoCaller(p *Program, fn *ssa.Function) bool {
+	for _, g := range p.RepoFuncs() {
+		if g == fn {
+			continue
+		}
+		for _, b := range g.Blocks {
+			for _, in := range b.Instrs {
+				if ci, ok := in.(ssa.CallInstruction); ok && ci.Common().StaticCallee() == fn {
+					return true
+				}
+			}
+		}
+	}
+	return false
+}
+
+// onlyCalledFrom: every static call of fn is in the function named caller.
+func onlyCalledFrom(p *Program, fn *ssa.Function, caller string) bool {
+	n := 0
+	for _, g := range p.RepoFuncs() {
+		for _, b := range g.Blocks {
+			for _, in := range b.Instrs {
+				if ci, ok := in.(ssa.CallInstruction); ok && ci.Common().StaticCallee() == fn {
+					if QualName(g) != caller {
+						return false
+					}
+					n++
+				}
+			}
+		}
+	}
+	return n > 0
 }
